@@ -161,7 +161,7 @@ def _write_replay(name, kind, inc, exc, rel):
     return path
 
 
-TEMPLATES = ["*.py", "**/x/**", "x/*", "a?[bc].py", "x/a.py", "tests/**", "**/*.py", "x/**"]
+TEMPLATES = ["*.py", "**/x/**", ".ci/**", "a?[bc].py", "x/a.py", "tests/**", "**/*.py", "x/**", "x/*", "./x/*"]
 
 
 def _configs(tier_name):
